@@ -1,5 +1,484 @@
 package main
 
-import "encoding/json"
+// Seeded random generator of routing cases (direction B): route sets far
+// beyond the model-checking bound (more routes, longer routes, several binds
+// per segment, real expressions, regex-active literals, percent-escapes and
+// arbitrary bytes in paths, header constraints, names and URL building).
 
-func treeGen(seed int64, n int, args []string, out *json.Encoder) {}
+import (
+	"encoding/json"
+	"fmt"
+	"math/rand"
+	"strings"
+)
+
+type exprT struct {
+	re      string
+	yes, no []string
+}
+
+var exprTable = []exprT{
+	{"[0-9]+", []string{"1", "42", "007"}, []string{"", "a", "4x"}},
+	{"[a-z]+", []string{"a", "xyz", "q"}, []string{"", "A", "a1"}},
+	{"a|b", []string{"a", "b"}, []string{"", "ab", "c"}},
+	{"[ab]", []string{"a", "b"}, []string{"", "ab", "c"}},
+	{"x?y", []string{"y", "xy"}, []string{"x", "xxy", ""}},
+	{"[a-z0-9]{2,3}", []string{"ab", "a1c", "zz"}, []string{"a", "abcd", "A1"}},
+	{"\\d+", []string{"5", "99"}, []string{"", "d", "5a"}},
+	{"[\\w]+", []string{"ab_1", "Q"}, []string{"", "a-b", "."}},
+	{"diff|patch", []string{"diff", "patch"}, []string{"dif", "patchx", ""}},
+	{".*", []string{"", "a", "a.b-c", "%41"}, nil},
+	{"[a-z]*", []string{"", "ab"}, []string{"A", "1"}},
+	// expressions with their own capture groups (D3)
+	{"(a|b)c", []string{"ac", "bc"}, []string{"c", "abc", ""}},
+	{"(x|y)+", []string{"x", "xy", "yyx"}, []string{"", "z", "xz"}},
+	{"v([0-9])", []string{"v1", "v9"}, []string{"v", "v12", "1"}},
+}
+
+var staticPool = []string{"a", "b", "users", "api", "v1", "a.b", "a+b", "(a)", "a$", "a*", "x-y", "~u", "p%41", "A", "index.html", "a!", "q=1", "a;b", "'q'", "@me", "a_b", "0"}
+var phPool = []string{"q", "a", "b", "", "x%41y", "%2F", "%zz", "a.b", "\xc3\xa9", "a b", "v1", "%", "%4", "users", "{x}", "?a", "a+b", "(a)", "..", "a%2Fb", "%C3%A9"}
+
+type segGen struct {
+	seg    aSeg
+	sample func(r *rand.Rand) []string // one admitted instance: the path segments it consumes
+}
+
+type nameAlloc struct{ n int }
+
+func (a *nameAlloc) next() string { a.n++; return fmt.Sprintf("p%d", a.n) }
+
+func pick(r *rand.Rand, s []string) string { return s[r.Intn(len(s))] }
+
+func genStatic(r *rand.Rand) segGen {
+	t := pick(r, staticPool)
+	return segGen{aSeg{K: "S", T: t, Binds: []string{}, Els: []aEl{{Ty: "lit", V: t}}}, func(*rand.Rand) []string { return []string{t} }}
+}
+
+func genPlaceholder(r *rand.Rand, na *nameAlloc) segGen {
+	n := na.next()
+	return segGen{aSeg{K: "P", T: "{" + n + "}", Binds: []string{n}, Els: []aEl{{Ty: "bind", V: n, G: 1}}},
+		func(r *rand.Rand) []string { return []string{pick(r, phPool)} }}
+}
+
+func genAll(r *rand.Rand, na *nameAlloc) segGen {
+	n := na.next()
+	capn := 0
+	t := "{" + n + ": **}"
+	switch r.Intn(4) {
+	case 0:
+		capn = 1 + r.Intn(3)
+		t = fmt.Sprintf("{%s: **, capture: %d}", n, capn)
+	case 1:
+		if r.Intn(3) == 0 {
+			n = "**"
+			t = "{**}"
+		}
+	}
+	return segGen{aSeg{K: "A", T: t, Binds: []string{n}, Cap: capn, Els: []aEl{{Ty: "bind", V: n, G: 1}}},
+		func(r *rand.Rand) []string {
+			k := 1 + r.Intn(3)
+			if capn > 0 && k > capn && r.Intn(4) != 0 {
+				k = capn
+			}
+			out := make([]string, k)
+			for i := range out {
+				out[i] = pick(r, phPool)
+			}
+			return out
+		}}
+}
+
+var litPool = []string{"-", ".", "_", "v", "id", "a.b", "a+", "(", ")", "$", "~", "x"}
+
+func genRegex(r *rand.Rand, na *nameAlloc, allowGrp bool) segGen {
+	var els []aEl
+	var binds []string
+	var t strings.Builder
+	type part struct {
+		lit string
+		ex  *exprT
+	}
+	var parts []part
+	grp := false
+	n := 1 + r.Intn(3)
+	lastBind := false
+	for i := 0; i < n; i++ {
+		switch k := r.Intn(10); {
+		case k < 3 && i > 0 || (lastBind && k < 6):
+			l := pick(r, litPool)
+			if len(els) > 0 && els[len(els)-1].Ty == "lit" {
+				continue // the lexer would merge two adjacent literals into one token
+			}
+			els = append(els, aEl{Ty: "lit", V: l})
+			t.WriteString(l)
+			parts = append(parts, part{lit: l})
+			lastBind = false
+		case k < 5 && i > 0 && !lastBind:
+			// bare {x} inside a multi-element segment: (.+)
+			nm := na.next()
+			els = append(els, aEl{Ty: "bind", V: nm, G: 1})
+			binds = append(binds, nm)
+			t.WriteString("{" + nm + "}")
+			parts = append(parts, part{ex: &exprT{re: ".+", yes: []string{"q", "ab", "1.2"}}})
+			lastBind = true
+		default:
+			// bind-parameter list with 1..2 parameters
+			np := 1
+			if r.Intn(5) == 0 {
+				np = 2
+			}
+			t.WriteString("{")
+			for j := 0; j < np; j++ {
+				ex := &exprTable[r.Intn(len(exprTable))]
+				for !allowGrp && strings.Contains(ex.re, "(") {
+					ex = &exprTable[r.Intn(len(exprTable))]
+				}
+				if strings.Contains(ex.re, "(") {
+					grp = true
+				}
+				nm := na.next()
+				g := 1
+				if j > 0 {
+					g = 2
+					t.WriteString(", ")
+				}
+				els = append(els, aEl{Ty: "bind", V: nm, G: g, Re: ex.re})
+				binds = append(binds, nm)
+				t.WriteString(nm + ": /" + ex.re + "/")
+				parts = append(parts, part{ex: ex})
+			}
+			t.WriteString("}")
+			lastBind = true
+		}
+	}
+	if len(binds) == 0 || (len(els) == 1 && els[0].Re == "") {
+		return genRegexSimple(r, na, allowGrp)
+	}
+	sg := aSeg{K: "R", T: t.String(), Binds: binds, Els: els, Grp: grp}
+	return segGen{sg, func(r *rand.Rand) []string {
+		var b strings.Builder
+		for _, p := range parts {
+			if p.ex == nil {
+				b.WriteString(p.lit)
+			} else {
+				b.WriteString(pick(r, p.ex.yes))
+			}
+		}
+		return []string{b.String()}
+	}}
+}
+
+func genRegexSimple(r *rand.Rand, na *nameAlloc, allowGrp bool) segGen {
+	ex := &exprTable[r.Intn(len(exprTable))]
+	for !allowGrp && strings.Contains(ex.re, "(") {
+		ex = &exprTable[r.Intn(len(exprTable))]
+	}
+	nm := na.next()
+	sg := aSeg{K: "R", T: "{" + nm + ": /" + ex.re + "/}", Binds: []string{nm}, Els: []aEl{{Ty: "bind", V: nm, G: 1, Re: ex.re}},
+		Grp: strings.Contains(ex.re, "(")}
+	return segGen{sg, func(r *rand.Rand) []string { return []string{pick(r, ex.yes)} }}
+}
+
+type routeGen struct {
+	r    aRoute
+	segs []segGen
+}
+
+func genRoute(r *rand.Rand, maxSegs int, allowGrp bool, pool *[]segGen) routeGen {
+	na := &nameAlloc{n: r.Intn(3) * 10}
+	n := 1 + r.Intn(maxSegs)
+	var rg routeGen
+	hasAll := false
+	for i := 0; i < n; i++ {
+		var sg segGen
+		// reuse an earlier segment often so that routes share subtrees and compete
+		if len(*pool) > 0 && r.Intn(10) < 5 {
+			sg = (*pool)[r.Intn(len(*pool))]
+			if sg.seg.K == "A" && hasAll && i < n-1 {
+				sg = genStatic(r)
+			}
+		} else {
+			switch k := r.Intn(10); {
+			case k < 4:
+				sg = genStatic(r)
+			case k < 6:
+				sg = genPlaceholder(r, na)
+			case k < 8:
+				sg = genRegex(r, na, allowGrp)
+			default:
+				if hasAll && i < n-1 {
+					sg = genPlaceholder(r, na)
+				} else {
+					sg = genAll(r, na)
+				}
+			}
+			*pool = append(*pool, sg)
+		}
+		if sg.seg.K == "A" && i < n-1 {
+			hasAll = true
+		}
+		rg.segs = append(rg.segs, sg)
+	}
+	// a trailing empty segment ("/a/") now and then
+	if r.Intn(12) == 0 {
+		rg.segs = append(rg.segs, segGen{aSeg{K: "S", T: "", Binds: []string{}, Els: []aEl{}}, func(*rand.Rand) []string { return []string{""} }})
+	}
+	if r.Intn(4) == 0 {
+		last := rg.segs[len(rg.segs)-1]
+		last.seg.Opt = true
+		rg.segs[len(rg.segs)-1] = last
+	}
+	rg.r.Gram = true
+	for _, s := range rg.segs {
+		rg.r.Segs = append(rg.r.Segs, s.seg)
+	}
+	return rg
+}
+
+// instance returns an admitted request path of the route (long or short form) as segments.
+func (rg routeGen) instance(r *rand.Rand) []string {
+	segs := rg.segs
+	if segs[len(segs)-1].seg.Opt && r.Intn(2) == 0 {
+		segs = segs[:len(segs)-1]
+	}
+	var out []string
+	for _, s := range segs {
+		out = append(out, s.sample(r)...)
+	}
+	if len(out) == 0 {
+		out = []string{""}
+	}
+	return out
+}
+
+func mutatePath(r *rand.Rand, p []string) []string {
+	q := append([]string{}, p...)
+	switch r.Intn(8) {
+	case 0:
+		if len(q) > 1 {
+			i := r.Intn(len(q))
+			q = append(q[:i], q[i+1:]...)
+		}
+	case 1:
+		i := r.Intn(len(q) + 1)
+		q = append(q[:i], append([]string{pick(r, phPool)}, q[i:]...)...)
+	case 2:
+		q = append(q, "")
+	case 3:
+		q[r.Intn(len(q))] = pick(r, phPool)
+	case 4:
+		q[r.Intn(len(q))] = pick(r, staticPool)
+	case 5:
+		i := r.Intn(len(q))
+		q[i] = q[i] + pick(r, []string{"x", "%41", ".", "%zz", "/"})
+	case 6:
+		i := r.Intn(len(q) + 1)
+		q = append(q[:i], append([]string{""}, q[i:]...)...)
+	}
+	return q
+}
+
+var hostilePaths = []string{"", "/", "//", "////", "%", "/%", "/%2", "/%zz", "/\x00", "/\xff\xfe", "/a/\x80", "/a//", "//a", "/?", "/a?b", "/{x}", "/a/../b", "/.", "/a/%2F/b", "/a%2Fb", "/ ", "/a b", "/\t", "/\n"}
+
+func hostilePath(r *rand.Rand) string {
+	switch r.Intn(6) {
+	case 0:
+		return pick(r, hostilePaths)
+	case 1:
+		n := r.Intn(40)
+		b := make([]byte, n)
+		for i := range b {
+			b[i] = byte(r.Intn(256))
+		}
+		return "/" + string(b)
+	case 2:
+		return "/" + strings.Repeat("a", 1+r.Intn(70000))
+	case 3:
+		return strings.Repeat("/"+pick(r, phPool), 1+r.Intn(3000))
+	case 4:
+		n := 1 + r.Intn(6)
+		var b strings.Builder
+		for i := 0; i < n; i++ {
+			b.WriteString("/")
+			b.WriteString(pick(r, append(phPool, staticPool...)))
+		}
+		return b.String()
+	default:
+		return strings.Repeat("/", r.Intn(5)) + pick(r, staticPool) + strings.Repeat("/", r.Intn(4))
+	}
+}
+
+var hdrExprs = []hdrC{{"X-K", "v"}, {"X-K", "^w$"}, {"User-Agent", "Chrome"}, {"X-Id", "[0-9]+"}, {"Cache-Control", ""}, {"X-K", "^(a|b)$"}}
+var hdrVals = map[string][]string{"X-K": {"", "v", "w", "vw", "a", "xvx"}, "User-Agent": {"", "Chrome/1", "Firefox"}, "X-Id": {"", "12", "ab"}, "Cache-Control": {"", "no-cache"}}
+
+func randReqHdr(r *rand.Rand) map[string]string {
+	h := map[string]string{}
+	for k, vs := range hdrVals {
+		if r.Intn(2) == 0 {
+			h[k] = pick(r, vs)
+		}
+	}
+	return h
+}
+
+var urlVals = []string{"", "v", "a/b", "{p1}", "{p2}", "{", "}", "%41", "x y", "\xff", "{p1}{p2}", "é"}
+
+func makeIllFormed(r *rand.Rand, rg routeGen, pool *[]segGen) aRoute {
+	rt := rg.r
+	segs := append([]aSeg{}, rt.Segs...)
+	switch r.Intn(8) {
+	case 0: // non-final optional
+		if len(segs) > 1 {
+			segs[r.Intn(len(segs)-1)].Opt = true
+		}
+	case 1: // inner empty segment
+		i := r.Intn(len(segs))
+		segs = append(segs[:i], append([]aSeg{{K: "S", T: "", Binds: []string{}, Els: []aEl{}}}, segs[i:]...)...)
+	case 2: // bind reused along the route
+		segs = append([]aSeg{{K: "P", T: "{dup}", Binds: []string{"dup"}, Els: []aEl{{Ty: "bind", V: "dup", G: 1}}}}, segs...)
+		segs = append(segs, aSeg{K: "P", T: "{dup}", Binds: []string{"dup"}, Els: []aEl{{Ty: "bind", V: "dup", G: 1}}})
+		for i := range segs[:len(segs)-1] {
+			segs[i].Opt = false
+		}
+	case 3: // bind reused inside one segment
+		segs = append(segs[:len(segs):len(segs)], aSeg{K: "R", T: "{dd}.{dd}", Binds: []string{"dd", "dd"},
+			Els: []aEl{{Ty: "bind", V: "dd", G: 1}, {Ty: "lit", V: "."}, {Ty: "bind", V: "dd", G: 1}}})
+		for i := range segs[:len(segs)-1] {
+			segs[i].Opt = false
+		}
+	case 4: // two match-alls before the end
+		a1 := aSeg{K: "A", T: "{m1: **}", Binds: []string{"m1"}, Els: []aEl{{Ty: "bind", V: "m1", G: 1}}}
+		a2 := aSeg{K: "A", T: "{m2: **}", Binds: []string{"m2"}, Els: []aEl{{Ty: "bind", V: "m2", G: 1}}}
+		segs = append([]aSeg{a1, a2}, segs...)
+	case 5: // expression that does not compile
+		segs = append(segs[:len(segs):len(segs)], aSeg{K: "R", T: "{bad: /(/}", Binds: []string{"bad"}, Bad: true, Grp: true,
+			Els: []aEl{{Ty: "bind", V: "bad", G: 1, Re: "("}}})
+		for i := range segs[:len(segs)-1] {
+			segs[i].Opt = false
+		}
+	case 6: // outside the grammar
+		return aRoute{Segs: segs, Gram: false, Raw: pick(r, []string{"a", "/a{", "/{x", "/a}", "/{x:}", "/a:b", "/[a]", "/{x: /a}", "/a,b", "/\"", "/a#", "", "/{x: /^a$/}"})}
+	default: // duplicate of itself is produced by the caller
+	}
+	rt.Segs = segs
+	return rt
+}
+
+func treeGen(seed int64, n int, args []string, out *json.Encoder) {
+	kind := "prio"
+	if len(args) > 0 {
+		kind = args[0]
+	}
+	rng := rand.New(rand.NewSource(seed))
+	for i := 0; i < n; i++ {
+		c := treeCase{Fam: "rand-" + kind, Hops: []hop{}}
+		var pool []segGen
+		nr := 2 + rng.Intn(11)
+		if kind == "url" {
+			nr = 1 + rng.Intn(3)
+		}
+		var rgs []routeGen
+		methods := []string{"GET"}
+		if kind == "hdr" || kind == "hostile" {
+			methods = []string{"GET", "GET", "POST", "HEAD"}
+		}
+		allowGrp := rng.Intn(4) == 0
+		call := 0
+		for j := 0; j < nr; j++ {
+			rg := genRoute(rng, 5, allowGrp, &pool)
+			rt := rg.r
+			if kind == "reg" && rng.Intn(10) < 3 {
+				rt = makeIllFormed(rng, rg, &pool)
+			}
+			if kind == "reg" && rng.Intn(10) == 0 && len(c.H) > 0 {
+				rt = c.H[rng.Intn(len(c.H))].R // duplicate
+			}
+			call++
+			m := pick(rng, methods)
+			if kind == "reg" && rng.Intn(25) == 0 {
+				m = pick(rng, []string{"BREW", "get ", "", "G E T"})
+			}
+			c.H = append(c.H, hEntry{M: m, R: rt, Ok: true, Hdr: []hdrC{}, Call: call})
+			rgs = append(rgs, rg)
+		}
+		switch kind {
+		case "prio", "reg", "hdr":
+			c.Via = "both"
+			if kind == "hdr" {
+				c.Via = "flame"
+				nh := 1 + rng.Intn(4)
+				for k := 0; k < nh; k++ {
+					reg := 1 + rng.Intn(len(c.H))
+					var hs []hdrC
+					seen := map[string]bool{}
+					for q := rng.Intn(3); q > 0; q-- {
+						hc := hdrExprs[rng.Intn(len(hdrExprs))]
+						if !seen[hc.Name] {
+							seen[hc.Name] = true
+							hs = append(hs, hc)
+						}
+					}
+					if hs == nil {
+						hs = []hdrC{}
+					}
+					c.Hops = append(c.Hops, hop{Reg: reg, Hdr: hs})
+				}
+			}
+			for j, rg := range rgs {
+				for k := 0; k < 3; k++ {
+					p := rg.instance(rng)
+					if k > 0 {
+						p = mutatePath(rng, p)
+					}
+					raw := strings.Repeat("/", 1+rng.Intn(10)/8) + strings.Join(p, "/")
+					rq := treeReq{M: c.H[j].M, Raw: encBytes(raw)}
+					if kind == "hdr" {
+						rq.H = randReqHdr(rng)
+						if rng.Intn(4) == 0 {
+							rq.M = pick(rng, methods)
+						}
+					}
+					c.Reqs = append(c.Reqs, rq)
+				}
+			}
+		case "hostile":
+			c.Via = "flame"
+			for k := 0; k < 12; k++ {
+				m := pick(rng, []string{"GET", "GET", "POST", "HEAD", "BREW", "get", "", "PROPFIND", strings.Repeat("X", 300)})
+				raw := hostilePath(rng)
+				if rng.Intn(3) == 0 && len(rgs) > 0 {
+					raw = "/" + strings.Join(mutatePath(rng, rgs[rng.Intn(len(rgs))].instance(rng)), "/")
+				}
+				rq := treeReq{M: m, Raw: encBytes(raw), H: randReqHdr(rng)}
+				c.Reqs = append(c.Reqs, rq, rq) // every request twice: the outcome is a function of the request
+			}
+		case "url":
+			c.Via = "flame"
+			for j := range c.H {
+				c.Names = append(c.Names, nameCall{Reg: j + 1, Name: fmt.Sprintf("n%d", j+1)})
+			}
+			if rng.Intn(3) == 0 {
+				c.Names = append(c.Names, nameCall{Reg: 1, Name: pick(rng, []string{"", "n1", "other"})})
+			}
+			for k := 0; k < 8; k++ {
+				j := rng.Intn(len(c.H))
+				u := urlCall{Reg: j + 1, WithOpt: rng.Intn(2) == 0, Vals: [][]string{}}
+				var names []string
+				for _, s := range c.H[j].R.Segs {
+					names = append(names, s.Binds...)
+				}
+				names = append(names, "zz")
+				for _, nm := range names {
+					if rng.Intn(3) > 0 && nm != "**" {
+						u.Vals = append(u.Vals, []string{nm, encBytes(strings.ReplaceAll(pick(rng, urlVals), "p1", names[0]))})
+					}
+				}
+				if rng.Intn(10) == 0 {
+					u.Reg = 0
+				}
+				c.URLs = append(c.URLs, u)
+			}
+		}
+		_ = out.Encode(c)
+	}
+}
